@@ -19,4 +19,16 @@ PROPS = {
         quick=dict(runs=[dict(tests="^TestC01$", checks=250)], min_nontrivial=30),
         thorough=dict(runs=[dict(tests="^TestC01$", checks=700, shards=16, timeout=3000)], min_nontrivial=1000),
     ),
+    "C16": dict(
+        rule="unit: 1..5 groups with weight 0..256 and 0..40 replicas (primes and zeros forced), initial-weight 1..256, through the real RebalanceWeight, checked against an exact rational model (range, zero iff configured zero, |w - exact| <= 1 or floor to 1, order preserved); pipeline: blue/green annotations (balance/deploy key, deploy/pod/default mode, labelled/unlabelled/not-ready pods, drain-support on/off) and Gateway HTTPRoute weighted backendRefs run through the whole controller, weights read from the written server lines. Non-trivial = at least two groups with non-zero weight and different replica counts; distinct by digest of the case.",
+        assumptions=["documented scale: the smallest per-server weight equals initial-weight unless the largest would exceed 256, then the largest is 256 (Gateway base weight 128)", "truncation, rounding or ceiling of the exact value are all accepted (inclusive tolerance of 1)"],
+        quick=dict(runs=[dict(tests="^TestC16$", checks=200000), dict(tests="^TestC16Pipeline$", checks=400)], min_nontrivial=1000),
+        thorough=dict(runs=[dict(tests="^TestC16$", checks=3000000, shards=12), dict(tests="^TestC16Pipeline$", checks=3000, shards=4)], min_nontrivial=100000),
+    ),
+    "C05": dict(
+        rule="C01-style histories with BackendShards in {0,1,3,5}, basic-auth userlists, a global ConfigMap whose changes force full resyncs, batches that delete every ingress and batches that change and revert one ingress; after every reconciliation the parsed *.cfg files (all of them, as haproxy -f <dir> loads), the referenced host map files, the crt-list and the userlists are compared with the instance's model through its exported accessors: every model backend exactly once with exactly its endpoints, every host rule exactly once, nothing that left the model. Non-trivial = shards > 0 and the history had a full resync after a partial one or deleted all ingresses; distinct by digest.",
+        assumptions=["files not named *.cfg and map files the main cfg does not reference are not loaded by HAProxy and are ignored", "regex/wildcard map keys are not compared textually"],
+        quick=dict(runs=[dict(tests="^TestC05$", checks=250)], min_nontrivial=10),
+        thorough=dict(runs=[dict(tests="^TestC05$", checks=600, shards=16, timeout=3000)], min_nontrivial=300),
+    ),
 }
